@@ -1,6 +1,7 @@
 import SnaxVerif.Props.C07
 import SnaxVerif.Lemmas.AccfgLinksAnnot
 import SnaxVerif.Lemmas.AccfgLinksFuel
+import SnaxVerif.Lemmas.AccfgLinksOld
 /-!
 # C07, second half — "Threading of state through control flow links each setup to the setup that really precedes it
 on every path", and "whatever the compiler assumes … is true", for the state-typed SSA values themselves.
@@ -14,11 +15,13 @@ IR well-formedness preconditions, decidable, evaluated by the driver on every co
 names a field at most once — then Python's last-wins `dict.update` and the register writes agree with `upd`), `wfB`
 (SSA: a value used by a setup is not redefined later in its block).
 
-**Named clause `NoPreThreadedLoops` (`plainPB p`)**: no `scf.for` of the INPUT already carries a state value. The
-tree violates C07 without it (findings DC07a, DC07b): `_weave_states_in_region` re-uses an existing state block
-argument (`find_existing_block_arg`) but never re-links its yield operand (only `created_block_args` are yielded)
-nor its init operand (a differing current state is appended as an extra operand: malformed IR). The full
-statements stay visible as `…_statement`, the proved parts are `…_partial`, the refutations `…_fails`.
+**Two variants of the pass.** `weave` models the pass WITH fixes/FC07a (existing loop-carried state block arguments are
+re-linked like created ones: init operand := state in front of the loop, yield operand := state that ends the body,
+accelerators already carried by a loop count as touched): all theorems hold for EVERY input program. `weaveOld` models
+the pass before the fix (findings DC07a, DC07b): the statements hold only under the named clause
+`NoPreThreadedLoops` (`plainPB p`: no `scf.for` of the input already carries a state value) — `…_statement` (full
+statement about `weaveOld`), `…_partial`, `…_fails`. The driver uses the variant that matches the status of DC07a in
+known_findings.d/C07.json.
 -/
 namespace SnaxVerif.C07
 open SnaxVerif.Accfg SnaxVerif.AccfgLinks
@@ -51,23 +54,29 @@ in the woven program `weave p`, with `G` the position-based facts (`knownB` of t
 * the yielded / init operands are the states at the end of the branches / of the body / in front of the loop.
 
 `Gives D A v r` = ∃ dictionary `s` without duplicate keys, `∃ N, ∀ m ≥ N, inferL D m A v = some s`, `s` denotes `r`. -/
-theorem weave_links_agree_partial (p : PBlock) (NoPreThreadedLoops : plainPB p = true) (hnd : nodupPB p = true)
-    (a : AccId) : AgreeB a (tableOf (weave p)) [] (weave p) noFacts :=
-  weave_agree p NoPreThreadedLoops hnd a
+theorem weave_links_agree (p : PBlock) (hnd : nodupPB p = true) (a : AccId) :
+    AgreeB a (tableOf (weave p)) [] (weave p) noFacts :=
+  weave_agree p hnd a
 
 /-- The same in the form of the correspondence check (`real_inference_at_points` vs `annotB`): when every launch follows
 its setup in straight-line code, the list — in pre-order over all setups and launches of the traced program, inserted
 empty setups included — of what `inferL` answers for the statement's state operand, tabulated over the accelerator's
 fields, IS the position-based annotation `annotB` of the traced program (for every large enough fuel). -/
-theorem weave_annot_agree_partial (fields : AccId → List Field) (p : PBlock) (NoPreThreadedLoops : plainPB p = true)
-    (hnd : nodupPB p = true) (hcur : allCurB (weave p) = true) :
+theorem weave_annot_agree (fields : AccId → List Field) (p : PBlock) (hnd : nodupPB p = true)
+    (hcur : allCurB (weave p) = true) :
     ∃ N, ∀ m, N ≤ m → annotTabB fields (tableOf (weave p)) m (weave p) =
       (annotB fields (eraseAll (weave p)) noFacts).map some :=
-  annotTabB_agree fields (tableOf (weave p)) (weave p) noFacts (fun a => weave_agree p NoPreThreadedLoops hnd a) hcur
+  annotTabB_agree fields (tableOf (weave p)) (weave p) noFacts (fun a => weave_agree p hnd a) hcur
 
-/-- the full statement: every program, also with pre-existing loop-carried state -/
+/-- the same statement about the pass BEFORE fixes/FC07a: every program, also with pre-existing loop-carried state -/
 def weave_links_agree_statement : Prop :=
-  ∀ p : PBlock, nodupPB p = true → ∀ a : AccId, AgreeB a (tableOf (weave p)) [] (weave p) noFacts
+  ∀ p : PBlock, nodupPB p = true → ∀ a : AccId, AgreeB a (tableOf (weaveOld p)) [] (weaveOld p) noFacts
+
+/-- … holds when no loop of the input carries a state value yet (there the two variants of the pass coincide) -/
+theorem weave_links_agree_partial (p : PBlock) (NoPreThreadedLoops : plainPB p = true) (hnd : nodupPB p = true)
+    (a : AccId) : AgreeB a (tableOf (weaveOld p)) [] (weaveOld p) noFacts := by
+  rw [weaveOld_eq p NoPreThreadedLoops]
+  exact weave_agree p hnd a
 
 /-- the fuel of `inferL` is immaterial: an answer obtained with some fuel stays the answer with more fuel (so any
 answer the driver computes is the stable one the theorems speak about; running out of fuel is `none`, never a
@@ -93,15 +102,21 @@ setup and every straight-line launch of the woven program that the execution rea
 of every loop), every dictionary `inferL` answers — with any fuel — for the statement's input state is true in the
 concrete register file: field `f ↦ x` in the dictionary ⇒ register `f` of the accelerator holds the current value
 of `x`. -/
-theorem assumed_state_holds_partial (cfg : Cfg) (p : PBlock) (NoPreThreadedLoops : plainPB p = true)
-    (hwf : wfB (eraseP p) = true) (hnd : nodupPB p = true) (st : St) :
-    HoldsB cfg (tableOf (weave p)) (weave p) st :=
-  holdsB cfg (tableOf (weave p)) (weave p) noFacts st (fun a => weave_agree p NoPreThreadedLoops hnd a)
+theorem assumed_state_holds (cfg : Cfg) (p : PBlock) (hwf : wfB (eraseP p) = true) (hnd : nodupPB p = true)
+    (st : St) : HoldsB cfg (tableOf (weave p)) (weave p) st :=
+  holdsB cfg (tableOf (weave p)) (weave p) noFacts st (fun a => weave_agree p hnd a)
     (by rw [weave_erase]; exact hwf) (by intro a f x h; simp [noFacts] at h) (by intro a f x h; simp [noFacts] at h)
 
+/-- the statement about the pass before fixes/FC07a, and its provable part -/
 def assumed_state_holds_statement : Prop :=
   ∀ (cfg : Cfg) (p : PBlock), wfB (eraseP p) = true → nodupPB p = true → ∀ st : St,
-    HoldsB cfg (tableOf (weave p)) (weave p) st
+    HoldsB cfg (tableOf (weaveOld p)) (weaveOld p) st
+
+theorem assumed_state_holds_partial (cfg : Cfg) (p : PBlock) (NoPreThreadedLoops : plainPB p = true)
+    (hwf : wfB (eraseP p) = true) (hnd : nodupPB p = true) (st : St) :
+    HoldsB cfg (tableOf (weaveOld p)) (weaveOld p) st := by
+  rw [weaveOld_eq p NoPreThreadedLoops]
+  exact assumed_state_holds cfg p hwf hnd st
 
 /-- the links of ANY traced program that satisfy `AgreeB` pass the decidable validation `soundChkB` the driver runs on
 the converted real IR of every case (whatever `inferL` answers at a setup / straight-line launch ⊆ `knownB` there) -/
@@ -119,29 +134,38 @@ def staleYield : PBlock :=
                         .cons (.call 1 true) .nil) [⟨0, 101, 100, 102, 103⟩]) <|
   .cons (.setup 0 [(0, 0)] 104 (some 103)) <| .cons (.launch 0 [] 104) .nil
 
-example : ldefsB (weave staleYield) =
+example : ldefsB (weaveOld staleYield) =
     [(0, .setup none [(0, 0), (1, 1)]), (1, .forArg 0 2), (2, .setup (some 1) [(0, 0), (1, 1)]), (3, .forRes 0 2),
      (4, .setup (some 3) [(0, 0)])] := by decide
-example : inferL (tableOf (weave staleYield)) 10 [] 3 = some [(0, 0), (1, 1)] := by decide
+example : inferL (tableOf (weaveOld staleYield)) 10 [] 3 = some [(0, 0), (1, 1)] := by decide
+/-- the repaired pass yields a fresh empty setup (state 3) instead: nothing is assumed behind the loop -/
+example : ldefsB (weave staleYield) =
+    [(0, .setup none [(0, 0), (1, 1)]), (1, .forArg 0 3), (2, .setup (some 1) [(0, 0), (1, 1)]), (3, .setup none []),
+     (4, .forRes 0 3), (5, .setup (some 4) [(0, 0)])] := by decide
+example : inferL (tableOf (weave staleYield)) 10 [] 4 = some [] := by decide
 /-- … whereas nothing is known in front of the setup behind the loop (5th entry) -/
 example : annotB (fun _ => [0, 1]) (eraseP staleYield) noFacts =
     [[], [(0, 0), (1, 1)], [], [(0, 0), (1, 1)], [], [(0, 0)]] := by decide
 
 theorem weave_links_agree_fails : ¬ weave_links_agree_statement := by
   intro h
-  have h1 := links_validation_complete (weave staleYield) (fuelOf (weave staleYield))
+  have h1 := links_validation_complete (weaveOld staleYield) (fuelOf (weaveOld staleYield))
     (fun a => h staleYield (by decide) a)
-  have h2 : soundChkB (tableOf (weave staleYield)) (fuelOf (weave staleYield)) (weave staleYield) noFacts = false := by
+  have h2 : soundChkB (tableOf (weaveOld staleYield)) (fuelOf (weaveOld staleYield)) (weaveOld staleYield) noFacts
+      = false := by
     decide +kernel
   rw [h1] at h2
   exact Bool.noConfusion h2
 
-/-- **The pass leaves valid IR** (operands and block arguments of every loop match) — when no loop of the input
-carries state yet. -/
-theorem weave_wellformed_partial (p : PBlock) (NoPreThreadedLoops : plainPB p = true) : weaveBad p = false :=
-  badB p noSig noSig 0 [] NoPreThreadedLoops
+/-- **The pass leaves valid IR** (operands and block arguments of every loop match), for every program. -/
+theorem weave_wellformed (p : PBlock) : weaveBad p = false :=
+  badB p noSig noSig 0 []
 
-def weave_wellformed_statement : Prop := ∀ p : PBlock, weaveBad p = false
+/-- before fixes/FC07a: only when no loop of the input carries state yet -/
+theorem weave_wellformed_partial (p : PBlock) (NoPreThreadedLoops : plainPB p = true) : weaveOldBad p = false := by
+  rw [weaveOldBad_eq p NoPreThreadedLoops]; exact weave_wellformed p
+
+def weave_wellformed_statement : Prop := ∀ p : PBlock, weaveOldBad p = false
 
 /-- **DC07b** witness: `s0 = setup; launch; call @g(); for iter_args(st = s0) { s1 = setup from st; launch; yield s1 }`:
 the stale init operand `s0` stays and the current state (the inserted empty setup) is appended as a second operand
@@ -150,6 +174,8 @@ def staleInit : PBlock :=
   .cons (.setup 0 [(0, 0), (1, 1)] 100 none) <| .cons (.launch 0 [] 100) <| .cons (.call 1 true) <|
   .cons (.forS 3 4 5 6 (.cons (.setup 0 [(0, 0), (1, 1)] 102 (some 101)) <| .cons (.launch 0 [] 102) .nil)
           [⟨0, 101, 100, 102, 103⟩]) .nil
+
+example : weaveBad staleInit = false := by decide
 
 theorem weave_wellformed_fails : ¬ weave_wellformed_statement := by
   intro h
